@@ -299,6 +299,25 @@ def run(tier):
         if '<<"BAD", 1>>' not in validate_trace("Trace_MetadataUpdate", "Trace_MetadataUpdate.cfg", pth)[1].out:
             raise ToolError("binding self-test (merge) failed")
 
+    # ---- user-visible end on a real Session: refreshes requested together while publishing is slow are all answered
+    rout = os.path.join(wd, "refresh.ndjson")
+    rounds, callers = (12, 8) if thorough else (4, 6)
+    run_harness("vh-driver", ["c19", "refresh", rout, rounds, callers], timeout=900)
+    rrows = read_ndjson(rout)
+    if len(rrows) != rounds:
+        raise ToolError("c19 refresh: %d of %d rounds" % (len(rrows), rounds))
+    acc, rq, rej = validate_trace("Trace_RefreshE2E", "Trace_RefreshE2E.cfg", rout, timeout=300)
+    if not acc:
+        raise ToolError("Trace_RefreshE2E did not consume its input (line %s)" % rej)
+    for b in sorted({int(m.group(1)) - 1 for m in _re.finditer(r'<<"BAD", (\d+)>>', rq.out)})[:3]:
+        x = rrows[b]
+        v.violation("refreshes requested together while a node joins: %d callers got %s; %d updates were merged into %d received values; the published state knows %d of %d nodes (every requested refresh must be answered)" % (
+            x["callers"], x["answers"], x["merges"], x["taken"], x["nodes_known"], x["nodes"]), [x])
+    piled = sum(1 for x in rrows if x["merges"] > x["taken"])
+    if piled == 0 and not v.violations:
+        raise ToolError("c19 refresh: in no round were fetched updates merged into a pending value (the scenario did not pile requests up)")
+    v.add(refresh_rounds=len(rrows), refresh_calls=sum(x["callers"] + 1 for x in rrows), refresh_rounds_with_merged_requests=piled)
+
     v.add(drift=drift, learnt_program_violates_model=model_cex, exhaustive=bool(exhaustive_fine and coarse_exh))
     v.assumptions += [
         "tokio::sync::Notify behaves as the single-waiter model in MergeChannel.tla (every forced run exercises the real Notify)",
